@@ -584,15 +584,17 @@ def rule_k1(repo, res, an):
                             "of at most 30 characters", witness=ws[0]))
 
 
-def rule_g2(repo, res, an):
+def rule_g2(repo, res, an, directions=("token-only", "decoder-only")):
     for r in an["readers"]:
         cfg = f"{r['decoder']}/{r['grammar']}"
-        for cname, ws in r["g2_token_only_by_class"].items():
+        for cname, ws in (r["g2_token_only_by_class"].items() if "token-only" in directions else ()):
             res.oblige("G2", f"{cfg}: Token.is_unquoted_string ∩ decoder class '{cname}' = ∅", ok=not ws)
             if ws:
                 res.add(Finding("G2", "Token.is_unquoted_string", f"{cfg}: {cname}",
                                 f"with {cfg}, Token.is_unquoted_string() is true for text the decoder classifies as "
                                 f"'{cname}', e.g. {ws}: the public token predicate and the decoder disagree", witness=ws[0]))
+        if "decoder-only" not in directions:
+            continue
         ws = r["g2_decoder_only"]
         res.oblige("G2", f"{cfg}: every string the decoder returns through decode_unquoted_string satisfies Token.is_unquoted_string", ok=not ws)
         if ws:
